@@ -104,7 +104,7 @@ def unit_ops(item):
 
 
 def shape_sig(td):
-    return tuple((k, tuple(v.shape[1:]), str(v.dtype)) for k, v in sorted(td.items()))
+    return E.group_sig(td)
 
 
 def unit_starts(item):
